@@ -235,3 +235,18 @@ Theorem C07_read_stream_without_faults : forall beh rs n s log, read_fails rs = 
   run_stream beh n rs s log = run beh n (handed_out rs) s log.
 Proof. exact run_stream_no_fault. Qed.
 Print Assumptions C07_read_stream_without_faults.
+
+(* ---- the library's own packet_received listener (_check_for_answers) under concurrent insertions ---- *)
+(* The answer check scans a SNAPSHOT of the pending patterns: for every schedule of insertions (send_packet with an
+   expected reply from another thread) and removals between the loop steps it visits exactly the patterns present at the
+   start and ends normally — no exception escapes into Caller.call / run(), so the dispatch of this packet and of all later
+   packets goes on exactly as stated above.  (Live iteration is refuted: Examples.live_scan_raises_on_insertion.) *)
+Theorem C07_answer_check_snapshot_never_raises : forall snap other k d,
+  let '(vis, _, ok) := scan_snapshot snap other k d in vis = snap /\ ok = true.
+Proof. exact snapshot_scan_never_raises. Qed.
+Print Assumptions C07_answer_check_snapshot_never_raises.
+
+Theorem C07_live_answer_scan_refuted :
+  answer_scan_live [7; 8] other_ins = ([7], [7; 8; 9], false) /\ answer_scan [7; 8] other_ins = ([7; 8], [7; 8; 9], true).
+Proof. split; vm_compute; reflexivity. Qed.
+Print Assumptions C07_live_answer_scan_refuted.
